@@ -409,4 +409,126 @@ theorem rmEl_build {D} (A : DigAlg D) (S : Splitter) (p : Params) (sl sl' : List
       rw [rmEl_succ_leaf]
       simp [mkLeaf, hd]
 
+/-! ### skip-list facts used by the history induction -/
+
+theorem slInsert_perm (e : Elem) (sl : List Elem) : (slInsert e sl).Perm (e :: sl) := by
+  induction sl with
+  | nil => exact List.Perm.refl _
+  | cons x xs ih =>
+    unfold slInsert
+    split
+    · exact List.Perm.refl _
+    · exact (List.Perm.cons x ih).trans (List.Perm.swap e x xs)
+
+theorem mem_slRemove {id : Nat} {sl : List Elem} {e : Elem} :
+    e ∈ slRemove id sl ↔ e ∈ sl ∧ e.id ≠ id := by
+  simp [slRemove, List.mem_filter]
+
+theorem slRemove_eq_self (id : Nat) (l : List Elem) (h : ∀ e, e ∈ l → e.id ≠ id) :
+    slRemove id l = l := by
+  unfold slRemove
+  apply List.filter_eq_self.mpr
+  intro e he
+  simp [h e he]
+
+theorem slRange_slRemove (id : Nat) (sl : List Elem) (a b : Nat) :
+    slRange (slRemove id sl) a b = slRemove id (slRange sl a b) := by
+  unfold slRange slRemove
+  rw [List.filter_filter, List.filter_filter]
+  congr 1
+  funext e
+  exact Bool.and_comm _ _
+
+theorem slRemove_len (l : List Elem) (e0 : Elem) (hn : (l.map (·.id)).Nodup) (hm : e0 ∈ l) :
+    (slRemove e0.id l).length + 1 = l.length := by
+  induction l with
+  | nil => cases hm
+  | cons x xs ih =>
+    simp only [List.map_cons, List.nodup_cons] at hn
+    by_cases hx : x.id = e0.id
+    · -- x is the element removed; nothing else has this id
+      have hrest : slRemove e0.id xs = xs := by
+        apply slRemove_eq_self
+        intro e he heq
+        apply hn.1
+        rw [hx, ← heq]
+        exact List.mem_map_of_mem he
+      have e1 : slRemove e0.id (x :: xs) = slRemove e0.id xs := by
+        simp [slRemove, List.filter_cons, hx]
+      rw [e1, hrest]; rfl
+    · have hm' : e0 ∈ xs := by
+        rcases List.mem_cons.mp hm with h | h
+        · exact absurd (by rw [h]) hx
+        · exact h
+      have := ih hn.2 hm'
+      have e1 : slRemove e0.id (x :: xs) = x :: slRemove e0.id xs := by
+        simp [slRemove, List.filter_cons, hx]
+      rw [e1]
+      simp only [List.length_cons]
+      omega
+
+theorem slRange_sub (sl : List Elem) (a b : Nat) : (slRange sl a b).Sublist sl := by
+  unfold slRange; exact List.filter_sublist
+
+theorem slRemove_sub (id : Nat) (sl : List Elem) : (slRemove id sl).Sublist sl := by
+  unfold slRemove; exact List.filter_sublist
+
+theorem mem_slRange {sl : List Elem} {a b : Nat} {e : Elem} :
+    e ∈ slRange sl a b ↔ e ∈ sl ∧ a ≤ e.hash ∧ e.hash ≤ b := by
+  simp [slRange, List.mem_filter]
+
+/-- removing the id whose hash is `x` changes the skip list only at `x` -/
+theorem remove_onlyAt (hf : Nat → Nat) (sl : List Elem) (id : Nat)
+    (hw : ∀ e, e ∈ sl → e.hash = hf e.id) : OnlyAt (hf id) sl (slRemove id sl) := by
+  intro a b hx
+  rw [slRange_slRemove]
+  apply slRemove_eq_self
+  intro e he heq
+  have hm := mem_slRange.mp he
+  have := hw e hm.1
+  rw [heq] at this
+  omega
+
+/-- … and takes exactly one element out of every range containing `x` -/
+theorem remove_count (hf : Nat → Nat) (sl : List Elem) (e0 : Elem) (hm : e0 ∈ sl)
+    (hw : ∀ e, e ∈ sl → e.hash = hf e.id) (hn : (sl.map (·.id)).Nodup)
+    (a b : Nat) (h1 : a ≤ hf e0.id) (h2 : hf e0.id ≤ b) :
+    (slRange (slRemove e0.id sl) a b).length + 1 = (slRange sl a b).length := by
+  rw [slRange_slRemove]
+  apply slRemove_len
+  · exact List.Nodup.sublist ((slRange_sub sl a b).map _) hn
+  · exact mem_slRange.mpr ⟨hm, by rw [hw e0 hm]; exact h1, by rw [hw e0 hm]; exact h2⟩
+
+theorem remove_le (id : Nat) (sl : List Elem) (a b : Nat) :
+    (slRange (slRemove id sl) a b).length ≤ (slRange sl a b).length := by
+  rw [slRange_slRemove]
+  unfold slRemove
+  exact List.length_filter_le _ _
+
+theorem slHas_iff {id : Nat} {sl : List Elem} : slHas id sl = true ↔ ∃ e, e ∈ sl ∧ e.id = id := by
+  simp [slHas, List.any_eq_true]
+
+/-! ### the walk through the top range -/
+
+/-- the width hypothesis for a whole index -/
+def TopOk (S : Splitter) (p : Params) (sl : List Elem) : Prop :=
+  SplitOk S p.df 0 (M - 1) ∧
+    ∀ i, i < p.df → WidthOk S p sl depthFuel (S.child 0 (M - 1) p.df i).1 (S.child 0 (M - 1) p.df i).2
+
+theorem top_step {D} (A : DigAlg D) (S : Splitter) (p : Params) (sl sl' : List Elem) (x : Nat)
+    (dc : Nat → Nat) (f : Tree D → Nat → Nat → Tree D)
+    (hout : OnlyAt x sl sl') (hx : x < M) (hok : TopOk S p sl') (hcount : dc sl.length = sl'.length)
+    (hf : ∀ i, i < p.df →
+      (S.child 0 (M - 1) p.df i).1 ≤ x → x ≤ (S.child 0 (M - 1) p.df i).2 →
+      f (build A S p sl depthFuel (S.child 0 (M - 1) p.df i).1 (S.child 0 (M - 1) p.df i).2)
+          (S.child 0 (M - 1) p.df i).1 (S.child 0 (M - 1) p.df i).2
+        = build A S p sl' depthFuel (S.child 0 (M - 1) p.df i).1 (S.child 0 (M - 1) p.df i).2) :
+    topOp A S p x dc f (buildTop A S p sl) = buildTop A S p sl' := by
+  obtain ⟨i, hb, hi', hin, hothers⟩ := hok.1.bucket x (Nat.zero_le _) (by omega)
+  unfold buildTop
+  rw [topOp_div, hb]
+  simp only []
+  rw [kid_buildKids A S p sl depthFuel 0 (M - 1) i hi', hf i hi' hin.1 hin.2,
+    set_buildKids A S p sl sl' x hout depthFuel 0 (M - 1) i hok.2 hothers, hcount]
+
 end AnySync.Ldiff
